@@ -42,6 +42,9 @@ pub enum BEv {
     /// retain_all_current_data at this point: everything allocated so far — values the host holds, results,
     /// and, in the middle of a run, the stack entries themselves — becomes part of the retained prefix
     RetainAll,
+    /// set_data_retention_count to the data length the host noted after one of its own earlier allocations
+    /// (only ever raising the count): a retention point that is not "everything so far"
+    RetainMark(usize),
 }
 
 #[derive(Clone, Debug, Serialize, Deserialize)]
@@ -215,7 +218,7 @@ impl Campaign for C19 {
                 evs.push(BEv::HostSymbol(format!("hs{}", rng.below(40))));
             }
             if retain_midway && rng.chance(1, 25) {
-                evs.push(BEv::RetainAll);
+                evs.push(if rng.chance(1, 2) { BEv::RetainAll } else { BEv::RetainMark(rng.below(8)) });
             }
             let opt = match cadence {
                 0 => false,
@@ -245,7 +248,7 @@ impl Campaign for C19 {
         if rng.chance(1, 3) {
             for _ in 0..rng.range(1, 4) {
                 match rng.below(6) {
-                    5 => pre.push(BEv::RetainAll),
+                    5 => pre.push(if rng.chance(1, 2) { BEv::RetainAll } else { BEv::RetainMark(rng.below(8)) }),
                     0 => pre.push(BEv::HostAdd(random_value(rng, 2))),
                     1 => pre.push(BEv::HostSymbol(format!("hs{}", rng.below(40)))),
                     2 => pre.push(BEv::Optimize(vec![RootSel::Retained(rng.below(40)), RootSel::Retained(rng.below(40))])),
@@ -405,6 +408,7 @@ impl Campaign for C19 {
                     BEv::HostShare(_) => " host_share",
                     BEv::HostSymbol(_) => " host_symbol",
                     BEv::RetainAll => " retain_all",
+                    BEv::RetainMark(_) => " retain_mark",
                 });
             }
         }
@@ -554,6 +558,8 @@ pub fn execute(sc: &Sc19) -> Outcome {
         }
     }
     let mut held: Vec<(usize, Val)> = vec![];
+    // data lengths the host noted right after each of its own allocations
+    let mut marks: Vec<usize> = vec![];
     let mut steps = 0usize;
     // the run is "ended" until it is started: the pre-start events go through the same code as boundary events
     let mut ended = true;
@@ -586,6 +592,7 @@ pub fn execute(sc: &Sc19) -> Outcome {
                             }
                             held.push((addr, v));
                             out.count("host_add", 1);
+                            marks.push(a.get_data_len());
                         }
                         Err(_) => {
                             out.count("f1_store_full_fired", 1);
@@ -604,6 +611,7 @@ pub fn execute(sc: &Sc19) -> Outcome {
                             }
                             held.push((addr, Val::Sym(sym)));
                             out.count("host_symbols_registered", 1);
+                            marks.push(a.get_data_len());
                             if a.data_retention_count() > 0 {
                                 out.probe("symbol-registered-after-retention-point");
                             }
@@ -616,6 +624,18 @@ pub fn execute(sc: &Sc19) -> Outcome {
                             out.count("f1_store_full_fired", 1);
                             break 'run;
                         }
+                    }
+                }
+                BEv::RetainMark(i) => {
+                    if marks.is_empty() {
+                        continue;
+                    }
+                    let m = marks[i % marks.len()];
+                    if m > a.data_retention_count() && m <= a.get_data_len() {
+                        sh.str("retain-mark");
+                        a.set_data_retention_count(m);
+                        out.count("retention_point_moved", 1);
+                        out.probe("retention-point-set-to-an-earlier-mark");
                     }
                 }
                 BEv::RetainAll => {
@@ -656,6 +676,7 @@ pub fn execute(sc: &Sc19) -> Outcome {
                             }
                             held.push((addr, v));
                             out.count("host_share", 1);
+                            marks.push(a.get_data_len());
                             out.probe("value-with-shared-sub-values-held");
                         }
                         Err(_) => {
@@ -835,6 +856,8 @@ pub fn execute(sc: &Sc19) -> Outcome {
                         Ok(Ok(mapped)) => {
                             optimizes_ok += 1;
                             out.count("optimize_ok", 1);
+                            // compaction moves everything past the retained prefix: lengths noted before it mean nothing now
+                            marks.clear();
                             if a.get_data_len() < size_before {
                                 out.count("optimize_reclaimed_slots", (size_before - a.get_data_len()) as u64);
                             }
